@@ -35,6 +35,21 @@ fn real_main(args: &[String]) -> i32 {
             }
             0
         }
+        // fuzz-artifact <C04|C06> <file>: re-run a libFuzzer artifact with the stable binary; on a
+        // failure the decoded case is written as an ordinary replay file
+        "fuzz-artifact" => {
+            if args.len() < 4 {
+                return usage();
+            }
+            fuzz_artifact(&args[2], &args[3])
+        }
+        // fuzz-seeds <C04|C06> <dir>: write the starting corpus of the libFuzzer campaign
+        "fuzz-seeds" => {
+            if args.len() < 4 {
+                return usage();
+            }
+            fuzz_seeds(&args[2], &args[3])
+        }
         "replay" => {
             if args.len() < 3 {
                 return usage();
@@ -108,4 +123,93 @@ fn replay(path: &str) -> i32 {
             1
         }
     }
+}
+
+fn fuzz_artifact(id: &str, path: &str) -> i32 {
+    let data = match std::fs::read(path) {
+        Ok(d) => d,
+        Err(e) => {
+            say!("cannot read {}: {}", path, e);
+            return 2;
+        }
+    };
+    let (part, case) = match id {
+        "C04" => ("mutations", serde_json::to_value(fv::props::c04::seq_case_from_bytes(&data)).unwrap_or(serde_json::Value::Null)),
+        "C06" => ("fuzz-bytes", serde_json::json!({ "hex": engine::hex(&data) })),
+        _ => return usage(),
+    };
+    let p = fv::props::find(id).unwrap();
+    fv::watchdog::start(p.id, "/tmp");
+    let doc = serde_json::json!({"property": id, "part": part, "case": case, "message": "libFuzzer artifact"});
+    let _g = fv::watchdog::publish(p.id, doc.to_string(), std::time::Duration::from_secs(120), true);
+    let r = engine::caught(|| (p.replay)(part, &case));
+    let msg = match r {
+        Ok(Some(Ok(_))) => {
+            say!("fuzz-artifact {}: the stable binary does not reproduce a failure on {}", id, path);
+            return 0;
+        }
+        Ok(Some(Err(m))) => m,
+        Ok(None) => {
+            say!("fuzz-artifact {}: the case does not deserialize", id);
+            return 2;
+        }
+        Err(p) => p,
+    };
+    let dir = engine::replay_dir();
+    let _ = std::fs::create_dir_all(&dir);
+    let out = format!("{}/{}-fuzz-{:016x}.json", dir, id, engine::fnv(&data));
+    let doc = serde_json::json!({"property": id, "part": part, "case": case, "message": msg});
+    let _ = std::fs::write(&out, serde_json::to_string_pretty(&doc).unwrap_or_default());
+    say!("[{}:fuzz] FAILED: {}", id, msg);
+    say!("VIOLATION property={} replay={}", id, out);
+    1
+}
+
+fn fuzz_seeds(id: &str, dir: &str) -> i32 {
+    let _ = std::fs::create_dir_all(dir);
+    let mut n = 0;
+    match id {
+        "C06" => {
+            // datagrams of the valid corpus sessions: the first packets of each (FDT, first and last object packets)
+            for i in 0..fv::corpus::CORPUS_TOTAL {
+                if let Ok(Ok(c)) = engine::caught(|| fv::corpus::build(i, 1)) {
+                    let k = c.packets.len();
+                    for j in [0usize, 1, k / 2, k.saturating_sub(1)] {
+                        if let Some((_, b)) = c.packets.get(j) {
+                            if std::fs::write(format!("{}/s{:03}-{:03}", dir, i, j), b).is_ok() {
+                                n += 1;
+                            }
+                        }
+                    }
+                }
+            }
+        }
+        "C04" => {
+            // (session index, cache class, one mutation of every kind with spread positions)
+            let mut x: u64 = 0x9E3779B97F4A7C15;
+            let mut next = move || {
+                x ^= x << 13;
+                x ^= x >> 7;
+                x ^= x << 17;
+                x
+            };
+            for i in 0..fv::corpus::CORPUS_TOTAL {
+                for tag in 0..12u8 {
+                    if (i + tag as usize) % 4 != 0 {
+                        continue;
+                    }
+                    let mut b = vec![(i & 0xff) as u8, (i >> 8) as u8, (next() & 3) as u8, tag];
+                    for _ in 0..24 {
+                        b.push((next() >> 24) as u8);
+                    }
+                    if std::fs::write(format!("{}/s{:03}-{:02}", dir, i, tag), &b).is_ok() {
+                        n += 1;
+                    }
+                }
+            }
+        }
+        _ => return usage(),
+    }
+    say!("fuzz-seeds {}: {} files in {}", id, n, dir);
+    0
 }
